@@ -135,6 +135,11 @@ def expected(case):
             a, b = fpath(syms[r]), fpath(syms[i])
             if a != b:
                 edges.add((a, b))
+        # generic instances are emitted into the generic's file: the argument's package file comes first
+        for gi, pi in syms[i].get("ginst", []):
+            a, b = fpath(syms[pi]), fpath(syms[gi])
+            if a != b:
+                edges.add((a, b))
     return listed, sorted(edges)
 
 
@@ -215,7 +220,7 @@ def judge(case, cli, pathsets):
             names = {}
             for s in syms:
                 f = ("prj/" if s["file"][0] == "main" else "dep1/") + s["file"][1]
-                if f in reach_files:
+                if f in reach_files and not s.get("generic"):
                     names[emitted_name(case, s)] = s
             for n in names:
                 c = defs.count(n)
@@ -379,6 +384,8 @@ def normalise_case(c):
     if c.get("syms"):
         for s in c["syms"]:
             s["file"] = tuple(s["file"])
+            s["ginst"] = [tuple(x) for x in s.get("ginst", [])]
+            s["forms"] = {int(k): v for k, v in s.get("forms", {}).items()}
     if c.get("order"):
         c["order"] = [tuple(x) for x in c["order"]]
     return c
